@@ -1,6 +1,7 @@
 import SSVerif.Model.AcmodFe
 import SSVerif.Proofs.AcmodDec
 import SSVerif.Proofs.FeBuf
+import SSVerif.Props.C07
 /-!
 # M5 ∘ M4: the acoustic-model ring fed by the real front end
 
@@ -545,5 +546,74 @@ theorem runOpsS_spec (cfg : Cfg) (hs : 0 < cfg.shift) (hss : cfg.shift ≤ cfg.s
       rcases mem_cons.mp hop' with e | e
       · rw [e]; exact t5
       · exact u5 op' e
+
+/-! ## the end of the utterance and whole runs -/
+
+theorem runOps_closed_next (win : Nat) (skip : Nat → Bool) : ∀ (post : List Op) (s : St), Closed win s →
+    (∀ op, op ∈ post → op.isProcess = false) → (runOps true win skip s post).nextId = s.nextId := by
+  intro post
+  induction post with
+  | nil => intro s _ _; rfl
+  | cons op post ih =>
+    intro s h hp
+    have hop := hp op (mem_cons_self ..)
+    have hs : Closed win (step true win skip s op) ∧ (step true win skip s op).nextId = s.nextId := by
+      cases op with
+      | process ns rs => simp [Op.isProcess] at hop
+      | processFull ns rs => simp [Op.isProcess] at hop
+      | query => exact ⟨h, rfl⟩
+      | align steps =>
+        cases steps with
+        | none => exact ⟨h, rfl⟩
+        | some upto => exact ⟨h.align upto, by show (alignPass s upto).nextId = _; rw [alignPass_spec s upto h.qinv]⟩
+    simp only [runOps, foldl_cons]
+    rw [← hs.2]
+    exact ih _ hs.1 (fun op' hm => hp op' (mem_cons_of_mem _ hm))
+
+/-- `decoder_end_utt` on an open utterance: the ring is empty, so `fe_end` is called, with room
+    `n_mfc_alloc - inptr ≥ 1`; it flushes the pending samples as the one short frame, which is numbered and consumed -/
+theorem decEndS_spec (cfg : Cfg) (hs : 0 < cfg.shift) (hlt : cfg.shift < cfg.size)
+    (win : Nat) (skip : Nat → Bool) (hw : 3 * win + 2 ≤ livebuf) (b0 : Nat) (x : FS) (o : Nat)
+    (h : OpenS cfg win b0 x o) (hB : b0 + x.st.nextId + (if 0 < o then 1 else 0) ≤ cmnWinHwm) :
+    ∃ fe', decEndS cfg true win skip x =
+        ({ x with fe := fe', st := decEnd true win skip x.st (decide (0 < o)) }, decide (0 < o)) ∧
+      fe'.out = (List.range x.st.nextId).map (fullFrame cfg.size cfg.shift) ++
+        (if 0 < o then [tailFrame cfg.shift x.st.nextId o] else []) ∧
+      Closed win (decEnd true win skip x.st (decide (0 < o))) ∧
+      (decEnd true win skip x.st (decide (0 < o))).nextId = x.st.nextId + (if 0 < o then 1 else 0) ∧
+      (decide (0 < o) = true ∨ x.st.nextId = 0) := by
+  have hst : ¬ (x.st.state = .ended ∨ x.st.state = .idle) := by
+    rcases h.op.state with e | e <;> rw [e] <;> decide
+  obtain ⟨c, _, hm⟩ := h.op.core
+  have hout := hm.out
+  have h0 := h.op.mfc0
+  have hroom : 0 < x.st.nMfcAlloc - (x.st.mfcOutidx + x.st.nMfcFrame) % x.st.nMfcAlloc := by
+    have := Nat.mod_lt (x.st.mfcOutidx + x.st.nMfcFrame) (show 0 < x.st.nMfcAlloc by omega)
+    omega
+  obtain ⟨fe', f1, f2, _⟩ := finish_spec cfg h.fe.rest _ hroom
+  have hdec : decide (0 < (if 0 < o then 1 else 0)) = decide (0 < o) := by
+    by_cases ho : 0 < o
+    · rw [if_pos ho]; simp [ho]
+    · rw [if_neg ho]; simp [ho]
+  have hfe : decide (0 < o) = true ∨ x.st.nextId = 0 := by
+    by_cases ho : 0 < o
+    · left; simp [ho]
+    · right
+      rcases h.fe.rest.ge with e | e
+      · exact e
+      · omega
+  have hite : (if decide (0 < o) = true then 1 else 0) = if 0 < o then 1 else 0 := by
+    by_cases ho : 0 < o
+    · simp [ho]
+    · simp [ho]
+  have hb : x.st.cmnFrames + (if decide (0 < o) = true then 1 else 0) ≤ cmnWinHwm := by
+    have := h.cmn; rw [hite]; omega
+  refine ⟨fe', ?_, f2, decEnd_closed win skip x.st _ h.op hfe hb hw, ?_, hfe⟩
+  · simp only [decEndS, hst, if_false, show x.st.nMfcFrame < x.st.nMfcAlloc by omega, if_true, f1, hdec]
+  · rw [decEnd_nextId win skip x.st _ h.op hfe hb hw, hite]
+
+theorem startS_open (cfg : Cfg) (hs : 0 < cfg.shift) (hss : cfg.shift ≤ cfg.size) (win : Nat) (s0 : St) (hwf : WF0 s0) :
+    OpenS cfg win s0.cmnFrames (startS s0) 0 :=
+  ⟨startUtt_open win s0 hwf, ⟨rest_start cfg hs hss, rfl, rfl⟩, by show 0 = 0 * cfg.shift + 0; omega, Nat.le_add_right _ _⟩
 
 end SSVerif.AcmodFe
